@@ -6,7 +6,8 @@ from contracts.bounded_cmd import Bounded
 BUILD_BFG = """
 project('proj', version='3.1')
 inc = header_directory('include dir', include='*.h')
-lib = shared_library('my lib/mylib', files=['l.c'], includes=[inc])
+inner = shared_library('inner', files=['i.c'])
+lib = shared_library('my lib/mylib', files=['l.c'], includes=[inc], libs=[inner])
 st = static_library('stat', files=['s.c'])
 install(inc, lib, st)
 pkg_config('explicit', version='1.2', includes=[inc], libs=[lib], requires=[('dep', '>=1.0')], conflicts=['bad'],
@@ -17,6 +18,10 @@ pkg_config(auto_fill=True)
 z = package('z', '>=1.0')
 pkg_config('withpkg', version='2.0', requires=[z])
 pkg_config('priv', version='1.0', libs=[lib], libs_private=[st])
+innerst = static_library('innerst', files=['is.c'], link_options=['-pthread'])
+outerst = static_library('outerst', files=['os.c'], libs=[innerst])
+fwd = pkg_config('fwd', version='1.0', libs=[outerst], link_options_private=['-Wl,-O1'])
+executable('consumer2', files=['c2.c'], packages=[fwd])
 mine = pkg_config('mine', version='1.0', includes=[inc], libs=[lib], options=['-DGREETING="hi there"'])
 executable('consumer', files=['c.c'], packages=[mine])
 """
@@ -28,17 +33,22 @@ Z_C, Z_L = ['-I/opt/z/include'], ['-L/opt/z/lib', '-lzcore']
 EXPECT = {
     'explicit': {'installed': (['-I{P}/include', '-DEXP=1'] + DEP_C, ['-pthread', '-L{P}/lib/my lib', '-lmylib'] + DEP_L, '1.2', 'dep >= 1.0'),
                  'uninstalled': (['-I{S}/include dir', '-DEXP=1'] + DEP_C, ['-pthread', '-L{B}/my lib', '-lmylib'] + DEP_L, '1.2', 'dep >= 1.0')},
-    'emptyinc': {'installed': ([], ['-L{P}/lib/my lib', '-L{P}/lib', '-lmylib', '-lstat'], '0.5', ''),
-                 'uninstalled': ([], ['-L{B}/my lib', '-L{B}', '-lmylib', '-lstat'], '0.5', '')},
+    # (auto-filled libraries: every library installed explicitly -- also `outerst`, which the package `fwd` lists)
+    'emptyinc': {'installed': ([], ['-L{P}/lib/my lib', '-L{P}/lib', '-lmylib', '-lstat', '-louterst'], '0.5', ''),
+                 'uninstalled': ([], ['-L{B}/my lib', '-L{B}', '-lmylib', '-lstat', '-louterst'], '0.5', '')},
     'emptylibs': {'installed': (['-I{P}/include'], [], '0.6', ''), 'uninstalled': (['-I{S}/include dir'], [], '0.6', '')},
     'withpkg': {'installed': (Z_C, Z_L, '2.0', 'zcore >= 1.0'), 'uninstalled': (Z_C, Z_L, '2.0', 'zcore >= 1.0')},
     # private libraries are handed to static consumers only
     'priv': {'installed': ([], ['-L{P}/lib/my lib', '-lmylib'], '1.0', '', ['-L{P}/lib/my lib', '-L{P}/lib', '-lmylib', '-lstat']),
              'uninstalled': ([], ['-L{B}/my lib', '-lmylib'], '1.0', '', ['-L{B}/my lib', '-L{B}', '-lmylib', '-lstat'])},
+    # requirements of a static dependency (its libraries and link options) are private requirements of the package, next
+    # to the declared private link options
+    'fwd': {'installed': ([], ['-L{P}/lib', '-louterst'], '1.0', '', ['-L{P}/lib', '-louterst', '-linnerst', '-pthread', '-Wl,-O1']),
+            'uninstalled': ([], ['-L{B}', '-louterst'], '1.0', '', ['-L{B}', '-louterst', '-linnerst', '-pthread', '-Wl,-O1'])},
     'mine': {'installed': (['-I{P}/include', '-DGREETING="hi there"'], ['-L{P}/lib/my lib', '-lmylib'], '1.0', ''),
              'uninstalled': (['-I{S}/include dir', '-DGREETING="hi there"'], ['-L{B}/my lib', '-lmylib'], '1.0', '')},
-    'proj': {'installed': (['-I{P}/include'], ['-L{P}/lib/my lib', '-L{P}/lib', '-lmylib', '-lstat'], '3.1', ''),
-             'uninstalled': (['-I{S}/include dir'], ['-L{B}/my lib', '-L{B}', '-lmylib', '-lstat'], '3.1', '')},
+    'proj': {'installed': (['-I{P}/include'], ['-L{P}/lib/my lib', '-L{P}/lib', '-lmylib', '-lstat', '-louterst'], '3.1', ''),
+             'uninstalled': (['-I{S}/include dir'], ['-L{B}/my lib', '-L{B}', '-lmylib', '-lstat', '-louterst'], '3.1', '')},
 }
 
 
@@ -72,6 +82,10 @@ class PkgConfigRun(Bounded):
             w(src + '/include dir/a.h', '')
             w(src + '/l.c', 'int l(void) { return 0; }\n')
             w(src + '/s.c', 'int s(void) { return 0; }\n')
+            w(src + '/i.c', 'int inner(void) { return 0; }\n')
+            w(src + '/c2.c', 'int outerst(void);\nint main(void) { return outerst(); }\n')
+            w(src + '/is.c', 'int innerst(void) { return 0; }\n')
+            w(src + '/os.c', 'int innerst(void); int outerst(void) { return innerst(); }\n')
             w(src + '/c.c', '#include "a.h"\n#include <string.h>\nint l(void);\n'
                             'int main(void) { return l() + strcmp(GREETING, "hi there"); }\n')
             w(top + '/deps/zcore.pc', 'Name: zcore\nDescription: z\nVersion: 1.2\nCflags: -I/opt/z/include\n'
@@ -126,9 +140,10 @@ class PkgConfigRun(Bounded):
                     want_s = fmt(EXPECT[pkg][form][4])
                     rc, out, err = q('--static', '--libs')
                     got_s = [norm(t) for t in shlex.split(out)]
-                    # same directories, same libraries in the same order
+                    # same directories, same libraries in the same order, the same other link options
                     if rc != 0 or {t for t in got_s if t[:2] == '-L'} != {t for t in want_s if t[:2] == '-L'} or \
-                            [t for t in got_s if t[:2] != '-L'] != [t for t in want_s if t[:2] != '-L']:
+                            [t for t in got_s if t[:2] == '-l'] != [t for t in want_s if t[:2] == '-l'] or \
+                            sorted(t for t in got_s if t[:2] not in ('-L', '-l')) != sorted(t for t in want_s if t[:2] not in ('-L', '-l')):
                         return self.fail(case, raw, 'static_consumers_get_the_private_libraries', form=form,
                                          got=out, expected=want_s, stderr=err[:200])
                 rc, out, err = q('--modversion')
@@ -137,9 +152,9 @@ class PkgConfigRun(Bounded):
                 rc, out, err = q('--print-requires')
                 if out != want_r:
                     return self.fail(case, raw, 'declared_requirements', form=form, got=out, expected=want_r)
-            if pkg == 'mine':
+            if pkg in ('mine', 'fwd'):
                 # a consumer inside the project, given the package object that pkg_config() returned
-                for goal in ('all', 'consumer'):
+                for goal in ('all', 'consumer' if pkg == 'mine' else 'consumer2'):
                     m = subprocess.run(['make', '-C', b, goal], env=env, capture_output=True, text=True, timeout=300)
                     if m.returncode != 0:
                         return self.fail(case, raw, 'consumer_builds_against_the_project', goal=goal,
